@@ -585,7 +585,7 @@ def reference_component(d, derived=False, component=False):
         for n, names in enumerate(c.identifiers):
             if not names:
                 continue
-            if not derived and any(c.attr(x).derived is not None for x in names[:1]):
+            if not derived and any(c.attr(x).derived is not None for x in names):
                 continue
             ids['I%d' % (n + 1)] = frozenset(names)
         idents[c.kl] = ids
